@@ -41,17 +41,27 @@ func init() {
 		Rule: "(a) SetLinks over every (current subset of a 4-element universe, requested list of length <= 4 over the universe plus one missing id, duplicates and every order) from both sides " +
 			"(thorough: all 2 x 16 x 781 pairs, quick: a seeded sample of 60 lists per current subset); (b) random histories of AddLinks/AddLink/RemoveLinks/RemoveLink/SetLinks/" +
 			"IncrementLinkCount/DecrementLinkCount/SetLinkCount and entity deletes; model predicts outcome and return values; structural monitor compares both sides raw and via the API after every transaction; " +
+			"(c) the same operations, one per transaction, over entities whose ids are 32766-32768 bytes long (legal ids that cannot be written as list keys on one side), judged without a model: an operation that returned an error changed nothing (whole-file dump), " +
+			"after every commit each plain link is on both sides or on neither, both sides of a ref-counted link hold the same positive count, no link names a missing entity, and an operation that reported success had its effect on the issuing side; " +
 			"non-trivial = distinct (side, current set, requested list) pairs with a non-empty symmetric difference or a missing target, plus distinct history op tuples",
 		Assumptions: []string{"negative SetLinkCount values are not generated (unspecified)"},
 		Exhaustive:  func(t core.Tier) bool { return t == core.Thorough },
 		Plan: func(tier core.Tier, seed int64) int {
 			if tier == core.Thorough {
-				return c05SetCases + 60000
+				return c05SetCases + c05EdgeCases*20 + 60000
 			}
-			return c05SetCases + 480
+			return c05SetCases + c05EdgeCases + 480
 		},
 		Run: func(c *core.Ctx, idx int) {
 			r := c.Rand()
+			nEdge := c05EdgeCases
+			if c.Tier == core.Thorough {
+				nEdge *= 20
+			}
+			if idx >= c05SetCases && idx < c05SetCases+nEdge {
+				c05Edge(c, idx-c05SetCases)
+				return
+			}
 			if idx >= c05SetCases {
 				cfg := kmodel.AllConfigs[idx%len(kmodel.AllConfigs)]
 				w := map[string]int{"create": 8, "delete": 4, "update": 1, "addlinks": 5, "addlink": 3, "removelinks": 4, "removelink": 3, "setlinks": 6, "rcinc": 6, "rcdec": 5, "rcset": 4}
@@ -142,6 +152,7 @@ func init() {
 		Promises: func(core.Tier) map[string][]string {
 			return map[string][]string{
 				"setlinks":   {"missing-target", "duplicates"},
+				"edge_op":    {"addlinks:ok", "addlinks:error", "addlink:error", "setlinks:error", "rcinc:ok", "rcinc:error", "rcset:error", "removelinks:ok"},
 				"op_outcome": {"setlinks:ok", "setlinks:notfound", "addlinks:ok", "addlinks:notfound", "removelinks:ok", "rcinc:ok", "rcdec:ok", "rcset:ok", "rcinc:notfound", "delete:ok"},
 			}
 		},
